@@ -146,15 +146,18 @@ func (b *sendDataWriter) Write(p []byte) (int, error) {
 			return 0, err
 		}
 
-		if b.transfer.bufInitPhase.Load() {
-			b.transfer.bufInitWG.Add(1)
-		}
 		if !b.deliver(b.buffer.Bytes()) {
 			return 0, b.ctx.Err()
 		}
 
+		// while probing the buffer size, wait for the ack of this chunk before sending the next
+		// one, but give up as soon as the pipeline is cancelled (the ack may never come)
 		if b.transfer.bufInitPhase.Load() {
-			b.transfer.bufInitWG.Wait()
+			select {
+			case <-b.transfer.bufInitChan:
+			case <-b.ctx.Done():
+				return 0, b.ctx.Err()
+			}
 		}
 		b.bufSize = b.transfer.bufferSize.Load()
 		b.buffer = bytes.NewBuffer(make([]byte, 0, b.bufSize))
@@ -703,6 +706,15 @@ func (t *trzszTransfer) pipelineSendData(ctx *pipelineContext, sendDataChan <-ch
 	return ackChan
 }
 
+// ackBufInit tells the encoder, which waits for it while probing the buffer size,
+// that the chunk it delivered has been acknowledged.
+func (t *trzszTransfer) ackBufInit() {
+	select {
+	case t.bufInitChan <- struct{}{}:
+	default:
+	}
+}
+
 func (t *trzszTransfer) pipelineRecvAck(ctx *pipelineContext, size int64, ackChan <-chan trzszAck, showProgress bool) <-chan int64 {
 	var progressChan chan int64
 	if showProgress {
@@ -743,12 +755,12 @@ func (t *trzszTransfer) pipelineRecvAck(ctx *pipelineContext, size int64, ackCha
 				if length == bufSize && chunkTime < 500*time.Millisecond && bufSize < t.transferConfig.MaxBufSize {
 					t.bufferSize.Store(minInt64(bufSize*2, t.transferConfig.MaxBufSize))
 					if t.bufInitPhase.Load() {
-						t.bufInitWG.Done()
+						t.ackBufInit()
 					}
 				} else {
 					if t.bufInitPhase.Load() {
 						t.bufInitPhase.Store(false)
-						t.bufInitWG.Done()
+						t.ackBufInit()
 					}
 					if chunkTime >= 2*time.Second && length <= bufSize {
 						bufSize = bufSize / int64(chunkTime/time.Second)
